@@ -341,6 +341,27 @@ func (a *absint) solvePhi(phi *ssa.Phi) ival {
 	return cur
 }
 
+// hmacSumDigest: x is h.Sum(b) on a hash made by hmac.New(sha256.New | sha1.New, …): the digest
+// size (Sum appends exactly that many bytes to b); 0 otherwise.
+func hmacSumDigest(x *ssa.Call) int64 {
+	if !x.Call.IsInvoke() || x.Call.Method.Name() != "Sum" || len(x.Call.Args) != 1 {
+		return 0
+	}
+	h, _ := callOf(x.Call.Value)
+	if h == nil || h.Call.StaticCallee() == nil || h.Call.StaticCallee().String() != "crypto/hmac.New" {
+		return 0
+	}
+	if f, ok := h.Call.Args[0].(*ssa.Function); ok {
+		switch f.String() {
+		case "crypto/sha256.New":
+			return 32
+		case "crypto/sha1.New":
+			return 20
+		}
+	}
+	return 0
+}
+
 func (a *absint) lenOf(v ssa.Value) ival {
 	v = stripIface(v)
 	if ld, ok := v.(*ssa.UnOp); ok && ld.Op == token.MUL && !a.inFieldLen {
@@ -414,25 +435,12 @@ func (a *absint) lenOf(v ssa.Value) ival {
 	case *ssa.Call:
 		// library contract: hash.Hash.Sum(nil) of an HMAC-SHA256 is 32 bytes
 		// (Sum(b) appends the digest to b)
-		if x.Call.IsInvoke() && x.Call.Method.Name() == "Sum" && len(x.Call.Args) == 1 {
-			if h, _ := callOf(x.Call.Value); h != nil && h.Call.StaticCallee() != nil && h.Call.StaticCallee().String() == "crypto/hmac.New" {
-				if f, ok := h.Call.Args[0].(*ssa.Function); ok {
-					var d int64
-					switch f.String() {
-					case "crypto/sha256.New":
-						d = 32
-					case "crypto/sha1.New":
-						d = 20
-					}
-					if d > 0 {
-						if isNilConst(x.Call.Args[0]) {
-							return ival{d, d}
-						}
-						l0 := a.lenOf(x.Call.Args[0])
-						return ival{sadd(l0.lo, d), sadd(l0.hi, d)}
-					}
-				}
+		if d := hmacSumDigest(x); d > 0 {
+			if isNilConst(x.Call.Args[0]) {
+				return ival{d, d}
 			}
+			l0 := a.lenOf(x.Call.Args[0])
+			return ival{sadd(l0.lo, d), sadd(l0.hi, d)}
 		}
 		if b, ok := x.Call.Value.(*ssa.Builtin); ok && b.Name() == "append" && len(x.Call.Args) >= 1 {
 			l0 := a.lenOf(x.Call.Args[0])
